@@ -121,3 +121,26 @@ MANIFEST_TEXT["C05"] = dict(
     note=("Covered so far: Bvf<u8|u16|u32|u64,N> assign forms. Not yet under contract (reported in evidence.uncovered): Bvd/Bv shifts, "
           "shl_in/shr_in, by-value/by-reference wrapper forms, u128/usize words. " + TRUST_NOTE),
 )
+
+COVER_BVF = "Covered so far: the Bvf<u8|u16|u32|u64, N> implementation (symbolic N, all lengths and values, dev and release expansions). "
+TODO_NOTE = "Not yet under contract (so a change there is NOT detected by this check yet): the Bvd and Bv implementations of the same operations, u128/usize word types"
+MANIFEST_TEXT["C05"]["note"] = (COVER_BVF + "Units: ShlAssign/ShrAssign<T> for all six T, shl_in, shr_in. " + TODO_NOTE + ", the by-value/by-reference wrapper forms. " + TRUST_NOTE)
+MANIFEST_TEXT["C06"] = dict(
+    text=("Proof: the real bodies of Bvf::rotl / Bvf::rotr are verified against `bit t of result == bit (t+n-k) mod n (resp. (t+k) mod n) of self`, "
+          "length unchanged, storage beyond len zero, for all n, values and 0 <= k <= n; inverse/complement laws follow from proved index lemmas (spec/prelude/rot.rs)."),
+    note=COVER_BVF + TODO_NOTE + ". " + TRUST_NOTE)
+MANIFEST_TEXT["C16"] = dict(
+    text=("Proof: leading_zeros/leading_ones/trailing_zeros/trailing_ones/is_zero and the default significant_bits are verified against exact run-length "
+          "contracts over the bit list (count <= len, all bits in the run equal, the bit after the run differs), on top of verified contracts of the per-word primitives."),
+    note=COVER_BVF + TODO_NOTE + ". Word-level leading/trailing counts rest on vstd's axioms for u8..u64. " + TRUST_NOTE)
+MANIFEST_TEXT["C08"] = dict(
+    text=("Proof: copy_range is verified against `bit i of result == bit s+i of self` for every storage bit (so the result is well formed), and the trait "
+          "defaults split_off/split/first/last are verified against list contracts, instantiated for the implementing type."),
+    note=COVER_BVF + TODO_NOTE + ". " + TRUST_NOTE)
+MANIFEST_TEXT["C07"] = dict(
+    text=("Proof: push/pop/set/resize and the trait defaults truncate/sign_extend are verified against list-edit contracts that fix every storage bit of the result."),
+    note=COVER_BVF + TODO_NOTE + ", append/prepend/insert, Extend/FromIterator (planned: bounded Kani stand-in). " + TRUST_NOTE)
+MANIFEST_TEXT["C19"] = dict(
+    text=("Proof, both build profiles: every verified Bvf unit establishes wf (len <= capacity, storage beyond len zero); zeros/ones/push/resize/sign_extend/repeat carry "
+          "`panics_if would exceed capacity` - every explicit panic site is reachable only under that condition and returning implies its negation - in the dev AND the release expansion."),
+    note=COVER_BVF + "Not yet under contract: from_bytes/from_binary/from_hex/read/TryFrom capacity errors, append/prepend/insert/extend, the debug-only index asserts of get/set/copy_range as a separate dev-profile instance. " + TRUST_NOTE)
